@@ -471,25 +471,28 @@ where for<'x> &'x R: EucRingOps<R> { z.iter().all(|(_, a)| a.is_zero()) }
 
 /// the `GenericChainComplex::generate(..).homology()` path through `Summand::{gen, vectorize, devectorize}`.
 /// `ds[i]` = d_matrix(i) : C_i -> C_{i-1} for i = 0..=top (ds[0] has 0 rows); `want[i]` = planted (rank, tors) of H_i.
-fn run_complex<R: HRing>(s: &mut Sink, r: &mut Rng, tag: &str, ds: &[D<R>], want: &[Option<(usize, Vec<R>)>], lvl: u32)
+fn run_complex<R: HRing>(s: &mut Sink, r: &mut Rng, tag: &str, ds: &[D<R>], want: &[Option<(usize, Vec<R>)>], lvl: u32, reduced: bool)
 where for<'x> &'x R: EucRingOps<R> {
     let top = ds.len() as isize - 1;
-    let input = format!("ring={} {} complex d_i: {}", R::name(), tag, ds.iter().map(|d| d.show()).collect::<Vec<_>>().join(" "));
-    s.count(&format!("complex.{}", R::name()));
+    let path = if reduced { "reduced().homology()" } else { "homology()" };
+    let input = format!("ring={} {} complex{} d_i: {}", R::name(), tag, if reduced { " (reduced first)" } else { "" }, ds.iter().map(|d| d.show()).collect::<Vec<_>>().join(" "));
+    s.count(&format!("complex{}.{}", if reduced { "-reduced" } else { "" }, R::name()));
     let mats: Vec<SpMat<R>> = ds.iter().map(|d| d.sp()).collect();
     let built = guard_msg(move || {
         let c = GenericChainComplex::<R>::generate(0..=top, -1, |i| mats[i as usize].clone());
+        // `reduced()` composes the reduction maps with the homology maps (Trans::merged with several factors)
+        let c = if reduced { c.reduced() } else { c };
         let h = c.homology();
         (c, h)
     });
     let (c, h) = match built {
         Ok(x) => x,
-        Err(msg) => { classify_panic::<R>(s, "homology()", &input, &msg); s.eval_only(&input, true); return }
+        Err(msg) => { classify_panic::<R>(s, path, &input, &msg); s.eval_only(&input, true); return }
     };
     for i in 0..=top {
         let iu = i as usize;
         let hi: &Summand<EnumGen<isize>, R> = h.get(i);
-        let what = format!("homology()[{i}]");
+        let what = format!("{path}[{i}]");
         let d_out = &ds[iu];
         let d_in = if i < top { ds[iu + 1].clone() } else { D::zero(ds[iu].c, 0) };
         let (rank, tors) = (hi.rank(), hi.tors().to_vec());
@@ -572,7 +575,8 @@ where for<'x> &'x R: EucRingOps<R> {
     // as a complex: degree 2 = C1, 1 = C2, 0 = C3
     let ds = vec![D::zero(0, sh.k), pl.d2.clone(), pl.d1.clone()];
     let want = vec![Some((sh.k - sh.r2, tb)), Some((sh.n - sh.r1 - sh.r2, ta)), Some((sh.m - sh.r1, vec![]))];
-    run_complex(s, r, &tag, &ds, &want, sh.lvl);
+    run_complex(s, r, &tag, &ds, &want, sh.lvl, false);
+    if r.chance(1, 2) { run_complex(s, r, &tag, &ds, &want, sh.lvl, true); }
 }
 
 fn rnd_shape(r: &mut Rng, maxdim: usize, lvl: u32, ops_mul: usize) -> Shape {
@@ -606,7 +610,8 @@ where for<'x> &'x R: EucRingOps<R> {
         let top = want.len() - 1;
         let ds: Vec<D<R>> = (0..=top).map(|i| D::from_sp(&c.d_matrix(i as isize))).collect();
         let want: Vec<Option<(usize, Vec<R>)>> = want.into_iter().map(Some).collect();
-        run_complex(s, r, &format!("builtin={name}"), &ds, &want, 1);
+        run_complex(s, r, &format!("builtin={name}"), &ds, &want, 1, false);
+        run_complex(s, r, &format!("builtin={name}"), &ds, &want, 1, true);
         // and each degree directly
         for i in 0..=top {
             let d_in = if i < top { ds[i + 1].clone() } else { D::zero(ds[i].c, 0) };
@@ -645,7 +650,8 @@ where for<'x> &'x R: EucRingOps<R> {
     // full-rank d1, wide
     run_direct(s, r, "corpus=wide", &m(2, 3, &[1, 2, 3, 4, 5, 6]), &z(0, 2), None, 1);
     let ds = vec![z(0, 1), m(1, 1, &[0]), m(1, 2, &[1, -1])];
-    run_complex(s, r, "corpus=complex", &ds, &[Some((1, vec![])), Some((0, vec![])), Some((1, vec![]))], 1);
+    run_complex(s, r, "corpus=complex", &ds, &[Some((1, vec![])), Some((0, vec![])), Some((1, vec![]))], 1, false);
+    run_complex(s, r, "corpus=complex", &ds, &[Some((1, vec![])), Some((0, vec![])), Some((1, vec![]))], 1, true);
 }
 
 /// malformed: shapes that do not compose must be rejected (assert), answer of the code model: `panic`
@@ -659,6 +665,59 @@ where for<'x> &'x R: EucRingOps<R> {
     s.oracle((n1 == n2) == got.is_some(), "calculate rejects differentials whose shapes do not compose, accepts the others", &req, reply);
     s.case(&req, reply, n1 != n2);
     s.count("malformed.shape");
+}
+
+/// `Trans` composition (append / merge / forward / backward / forward_mat / backward_mat / reduce) against the Lean model.
+/// Integers only; with probability 1/5 one dimension is made inconsistent (the asserts must reject it).
+fn run_trans(s: &mut Sink, r: &mut Rng) {
+    type R = i64;
+    let k = 1 + r.below(4) as usize;
+    let mut dims: Vec<usize> = (0..=k).map(|_| r.below(4) as usize).collect();
+    if r.chance(1, 3) { dims[0] = 1 + r.below(3) as usize; }
+    let rm = |r: &mut Rng, a: usize, b: usize| D::<R> { r: a, c: b, e: (0..a * b).map(|_| r.range(-3, 3)).collect() };
+    let mut fs = vec![]; let mut bs = vec![];
+    for i in 0..k { fs.push(rm(r, dims[i + 1], dims[i])); bs.push(rm(r, dims[i], dims[i + 1])); }
+    let mut vdim = dims[0]; let mut wdim = dims[k];
+    let bad = r.chance(1, 5);
+    if bad {
+        match r.below(4) {
+            0 => { let i = r.below(k as u64) as usize; fs[i] = rm(r, dims[i + 1], dims[i] + 1); }
+            1 => { let i = r.below(k as u64) as usize; bs[i] = rm(r, dims[i] + 1, dims[i + 1]); }
+            2 => vdim += 1,
+            _ => wdim += 1,
+        }
+    }
+    let split = r.below(k as u64 + 1) as usize;
+    let v: Vec<R> = (0..vdim).map(|_| r.range(-4, 4)).collect();
+    let w: Vec<R> = (0..wdim).map(|_| r.range(-4, 4)).collect();
+    let vec_line = |v: &[R]| format!("{} 1{}", v.len(), v.iter().map(|a| format!(" {a}")).collect::<String>());
+    let mut req = format!("tr {} {} {}", dims[0], k, split);
+    for i in 0..k { req.push(' '); req.push_str(&mat_line(&fs[i])); req.push(' '); req.push_str(&mat_line(&bs[i])); }
+    req.push(' '); req.push_str(&vec_line(&v)); req.push(' '); req.push_str(&vec_line(&w));
+    let (fs2, bs2, v2, w2, n0) = (fs.clone(), bs.clone(), v.clone(), w.clone(), dims[0]);
+    let use_merged = r.bool();
+    let got = guard(move || {
+        // first `split` pairs appended to id(n0); the rest collected in a second Trans and merged
+        let mut t = Trans::<R>::id(n0);
+        for i in 0..split { t.append(fs2[i].sp(), bs2[i].sp()); }
+        if split < fs2.len() {
+            let mut u = Trans::<R>::new(fs2[split].sp(), bs2[split].sp());
+            for i in split + 1..fs2.len() { u.append(fs2[i].sp(), bs2[i].sp()); }
+            if use_merged { t = t.merged(&u); } else { t.merge(u); }
+        }
+        let fwd = t.forward(&spvec(&v2)).to_dense();
+        let bwd = t.backward(&spvec(&w2)).to_dense();
+        let (fm, bm) = (D::from_sp(&t.forward_mat()), D::from_sp(&t.backward_mat()));
+        let mut t2 = t.clone();
+        t2.reduce();
+        let same = t2.forward(&spvec(&v2)).to_dense() == fwd && t2.backward(&spvec(&w2)).to_dense() == bwd
+            && D::from_sp(&t2.forward_mat()) == fm && D::from_sp(&t2.backward_mat()) == bm
+            && t2.src_dim() == t.src_dim() && t2.tgt_dim() == t.tgt_dim();
+        format!("src={} tgt={} fwd={} bwd={} fm={} bm={} reduce-same={}", t.src_dim(), t.tgt_dim(), vec_show(&fwd), vec_show(&bwd), mat_line(&fm), mat_line(&bm), same)
+    });
+    let reply = got.unwrap_or_else(|| "panic".into());
+    s.count(if bad { "trans.malformed" } else { "trans.valid" });
+    s.case(&req, &reply, true);
 }
 
 fn ring_stream<R: HRing>(s: &mut Sink, r: &mut Rng, cases: usize, maxdim: usize, lvl: u32, ops_mul: usize)
@@ -694,6 +753,8 @@ fn main() {
     }
 
     for _ in 0..(if th { 200 } else { 40 }) { malformed::<i64>(s, r); }
+
+    for _ in 0..(if th { 3000 } else { 400 }) { run_trans(s, r); }
 
     // planted complexes: (cases, maxdim, lvl, ops multiplier)
     let k = if th { 12 } else { 1 };
